@@ -108,11 +108,13 @@ def window_class(lo, hi):
 
 
 def precision(cls, lo, hi):
-    """(A4 tolerance, A5 rms floor).  NASA fits are linear least squares and reach 1e-11; the
-    Shomate fit reaches 3e-9 on wide windows and 2e-7 when T_high/T_low < 1.2."""
+    """(A4 tolerance, A5 rms floor, A5 identity tolerance).  NASA fits are linear least squares
+    and reach 1e-11; the Shomate fit reaches 3e-9 on wide windows and 2e-7 when
+    T_high/T_low < 1.2, where its large cancelling coefficients also cost the identities three
+    digits (1e-7 observed)."""
     if cls == 'Shomate' and window_class(lo, hi) != 'wide':
-        return 1e-4, 1e-4
-    return TOL_A4, A5_RMS_FLOOR
+        return 1e-4, 1e-4, 1e-4
+    return TOL_A4, A5_RMS_FLOOR, TOL_A5
 
 
 # ================================================================= helpers
@@ -883,12 +885,14 @@ def _a5(ctx, spec, obj, src, cls, mech, T, Cp, edges, T_ref, g):
             return (rms, ref_rms, rms <= A5_RMS_FACTOR * ref_rms + floor,
                     mx, ref_max, mx <= max(A5_MAX_DCP, A5_RMS_FACTOR * ref_max))
 
-        everything = np.ones(len(Tarr), dtype=bool)
+        # data points that sit exactly on a break are left out: the fit assigned them to the
+        # lower interval while the getters of Nasa evaluate them with the upper one
+        everything = ~np.isin(Tarr, np.asarray(breaks, dtype=float))
         rms, ref_rms, ok_rms, mx, ref_max, ok_max = judge(everything)
         culprit = 'grid'
         if not (ok_rms and ok_max):
             # is the excess error confined to the lowest data temperature?
-            inner = Tarr > Tarr.min()
+            inner = everything & (Tarr > Tarr.min())
             j = judge(inner)
             if j[2] and j[5]:
                 culprit = 'T_low_point'
@@ -912,6 +916,7 @@ def _a5(ctx, spec, obj, src, cls, mech, T, Cp, edges, T_ref, g):
         pts.add(b)
     pts = sorted(p for p in pts if lo <= p <= hi)
     m = dict(mech, part='identity')
+    tol_id = precision(cls, lo, hi)[2]
     dcp = lambda t: _f(obj.get_CpoR(T=float(t))) - src.cp(float(t))
     dcpT = lambda t: dcp(t) / t
     # cumulative integrals between consecutive points (each inside one segment)
@@ -949,12 +954,12 @@ def _a5(ctx, spec, obj, src, cls, mech, T, Cp, edges, T_ref, g):
         lhsS = (sf - ss) - (sf0 - ss0)
         scH = max(1.0, abs(intH)) + 1e-6 * (abs(Tq * hf) + abs(Tq * hs) + abs(T_ref * hf0) + abs(T_ref * hs0))
         scS = max(1.0, abs(intS)) + 1e-6 * (abs(sf) + abs(ss) + abs(sf0) + abs(ss0))
-        if errH > 0.01 * TOL_A5 * scH or errS > 0.01 * TOL_A5 * scS:
+        if errH > 0.01 * tol_id * scH or errS > 0.01 * tol_id * scS:
             ctx.inconc('A5', 'quadrature error too large', errH=errH, errS=errS, T=Tq)
             continue
-        ctx.close('A5', lhsH, intH, TOL_A5, dict(m, q='HoRT', where=where), scale=scH,
+        ctx.close('A5', lhsH, intH, tol_id, dict(m, q='HoRT', where=where), scale=scH,
                   T=Tq, T_ref=T_ref, edges=edges)
-        ctx.close('A5', lhsS, intS, TOL_A5, dict(m, q='SoR', where=where), scale=scS,
+        ctx.close('A5', lhsS, intS, tol_id, dict(m, q='SoR', where=where), scale=scS,
                   T=Tq, T_ref=T_ref, edges=edges)
 
 
